@@ -840,7 +840,7 @@ func (v *env) opSeek() {
 	if !v.prof.Ranges {
 		v.res.Count("seekable_without_ranges", 1)
 	}
-	script, problem := seekScript(v.rng, rs, n.bytes, v.res)
+	script, problem := seekScript(v, rs, n.bytes)
 	v.trace[len(v.trace)-1] += " " + script
 	if problem != "" {
 		v.fail("seek-mismatch", "Read/Seek script on blob node %d (%d bytes): %s", n.id, len(n.bytes), problem)
